@@ -69,7 +69,8 @@ def tlc(module, cfg, workers=16, timeout=1500, extra=None, env=None, dfs=False):
 def exhaustive_job(job, ev):
     """An exhaustive TLC run of a specification module: all invariants of
     the cfg must hold."""
-    r = tlc(job['module'], job['cfg'], workers=job.get('workers', 16), timeout=job.get('timeout', 1500),
+    r = tlc(job['module'], job['cfg'], workers=job.get('workers', 16),
+            timeout=job.get('timeout', 5400 if job.get('tiers') == ('thorough',) else 1500),   # (a busy machine is not a verdict)
             extra=job.get('extra'))
     if r.get('error') or (not r['completed'] and not r['violated']):
         raise Infra('TLC failed on %s/%s:\n%s' % (job['module'], job['cfg'], r['out'][-3000:]))
